@@ -863,7 +863,7 @@ def main(tier):
             else:
                 ref = None
             fr = verify.verify_function(Scoped(chk), fname, entry, post, known=known, on_violation=onv, witness_terms=witness_terms,
-                                        timeout_ms=timeout, deadline_s=120, only=keep, rename=rename, refute=ref)
+                                        timeout_ms=timeout, deadline_s=3600, path_timeout_ms=30000, only=keep, rename=rename, refute=ref)
         finally:
             E.MODELS.pop(C15.TPV_KEY, None)
         inlined |= fr.inlined
@@ -875,7 +875,7 @@ def main(tier):
     shapes = [TYPES, ('DOUBLE',), ('CATEGORICAL', 'INTEGER')]
     for types in shapes:
         verify.verify_function(Scoped(col), 'random_sample.sample_parameters', sample_parameters_entry(types), sample_parameters_post(types),
-                               witness_terms=witness_terms, timeout_ms=timeout, deadline_s=60)
+                               witness_terms=witness_terms, timeout_ms=timeout, deadline_s=3600, path_timeout_ms=30000)
     bad = [r for r in col.records if r[3] != report.PROVED]
     if bad:
         for r in bad:
